@@ -72,8 +72,43 @@ def block_names(op):
     return names
 
 
+MAG_TASKS = 14
+MAG_OPS = ["SHL", "SHR", "SAR", "EXP", "MUL", "SIGNEXTEND", "BYTE", "DIV", "SDIV", "MOD", "SMOD", "ADDMOD", "MULMOD", "SUB"]
+MAG_EXP = [9, 16, 20, 24, 27, 28, 30, 31, 32, 33, 35, 38, 40, 48, 62, 63, 64, 65, 128, 255]
+
+
+def magnitude_op(spec):
+    """Deterministic sweep: one opcode per task, constant operands 2^k (+-1) over the whole range of k in either
+    position against a small non-zero constant.  Three-instruction blocks under a budget that is tight enough to
+    notice work proportional to the *value* of a constant (an integer of 2^k bits is 2^(k-3) bytes)."""
+    i = spec["index"]
+    r = stream(spec["seed"], i, "magnitude")
+    name = MAG_OPS[i % len(MAG_OPS)]
+    blocks = []
+    for k in MAG_EXP:
+        big = (1 << k) + r.choice([0, 0, -1, 1])
+        other = r.choice([1, 2, 3, 0xff, (1 << 256) - 1, 1 << 255])
+        for a, b in ((big, other), (other, big)):
+            items = [("PUSH", "%x" % b), ("PUSH", "%x" % a)]
+            if name in ("ADDMOD", "MULMOD"):
+                items = [("PUSH", "%x" % r.choice([other, big, 7]))] + items
+            blocks.append(items + [(name, None), ("PUSH", "%x" % (len(blocks) + 1)), ("JUMP", None)])
+    flags = [[], ["-size"], ["-length"], ["-storage"]][(i // len(MAG_OPS)) % 4] + ["-greedy"]
+    op = C.bl_op(blocks, flags)
+    op["fmt"] = "bl"
+    op["desc"] = {"split": "none", "crit": "gas", "rules": True, "push0": True, "backend": "-greedy"}
+    # 5 short blocks per CPU second and 192 MiB on top of what the worker maps already: about 50x what these runs
+    # need, and far below 2^28 bytes times a few copies
+    op["cpu_s"] = 10 + len(blocks) // 5
+    op["as_extra"] = 192 << 20
+    return op
+
+
 def build_ops(spec):
     i = spec["index"]
+    if i < MAG_TASKS:
+        op = magnitude_op(spec)
+        return op, None, block_names(op)
     rf = stream(spec["seed"], i, "fs")
     backend = "-greedy" if i % 5 else "solver"
     op = C.build_pipe_op(spec, backend=backend, profile="nasty" if i % 2 == 0 else None,
@@ -169,8 +204,10 @@ def check(spec):
     st, res = C.run_child(op, fork=True)
     summ["evals"] += 1
     rp = {"op": op, "twin": twin}
+    if op.get("as_extra"):
+        summ["probes"]["magnitude_sweep_runs"] = 1
     if st in ("cpu", "mem"):
-        return summ, [{"class": ["limit", st, input_shape(op), op["desc"]["backend"]], "detail": "fault-free run hit the %s budget | argv %s | input %s" % (
+        return summ, [{"class": ["limit", st, "magnitude-sweep" if op.get("as_extra") else input_shape(op), op["desc"]["backend"]], "detail": "fault-free run hit the %s budget | argv %s | input %s" % (
             st, " ".join(op["argv"][1:]), list(op["files"].values())[0][:400]), "replay": rp}]
     if st != "ok":
         summ["harness"] += 1
